@@ -590,6 +590,55 @@ func c12Special(quick bool) []c12Prog {
 		// quadratic, such a program takes longer to compile than the coordinator's hang watchdog allows)
 		_ = quick
 	}
+	// relative jumps over more than 65535 bytes: JUMP_FORWARD over an if body, SETUP_LOOP over a
+	// while body and a for body (FOR_ITER), SETUP_EXCEPT / SETUP_FINALLY / SETUP_WITH over a suite
+	for _, h := range []struct{ name, head, tail string }{
+		{"if-else", "x = 1\nif x:\n", "else:\n x = 2\n"},
+		{"while", "x = 1\nwhile x:\n", " x = 0\n"},
+		{"for", "x = 1\nfor i in R:\n", ""},
+		{"try-except", "x = 1\ntry:\n", "except E:\n x = 2\n"},
+		{"try-finally", "x = 1\ntry:\n", "finally:\n x = 2\n"},
+		{"with", "x = 1\nwith CM:\n", ""},
+	} {
+		var b strings.Builder
+		b.WriteString(h.head)
+		b.WriteString(strings.Repeat(" x = x\n", 11000))
+		b.WriteString(h.tail)
+		b.WriteString("x = 3\n")
+		out = append(out, c12Prog{Gen: "special", Shape: "relative-jump>65535", Leaf: h.name, Src: b.String(), Run: true})
+	}
+	// the 16-bit operand boundary: a loop header (the target of the backward absolute jump of
+	// `while` and of `continue`) and a forward jump target at every byte offset from 0xFFFF-9 to
+	// 0xFFFF+9 (an operand of exactly 0xFFFF is the last one that fits without EXTENDED_ARG)
+	{
+		pads := map[int]string{0: "", 4: "x\n", 5: "-x\n", 2: "x\nx\n", 3: "x\n-x\n", 1: "x\nx\n-x\n"}
+		padLen := map[int]int{0: 0, 4: 4, 5: 5, 2: 8, 3: 9, 1: 13}
+		lo, hi := 0xFFFF-9, 0xFFFF+9
+		if quick {
+			lo, hi = 0xFFFF-3, 0xFFFF+3
+		}
+		for T := lo; T <= hi; T++ {
+			for _, tail := range []struct {
+				name, src string
+				before    int
+			}{
+				{"while", "while x:\n x = 0\n", 3},                       // header = SETUP_LOOP + 3
+				{"continue", "while x:\n x = 0\n continue\n x = 2\n", 3}, // CONTINUE_LOOP / JUMP_ABSOLUTE to the header
+				{"if", "if x:\n x = 0\nx = 5\n", 12},                     // POP_JUMP_IF_FALSE over LOAD_NAME, LOAD_CONST, STORE_NAME
+			} {
+				// 6 bytes of `x = 1`, n statements `x = x` of 6 bytes, a pad, then the tail
+				rest := T - tail.before - 6
+				r := rest % 6
+				n := (rest - padLen[r]) / 6
+				var b strings.Builder
+				b.WriteString("x = 1\n")
+				b.WriteString(strings.Repeat("x = x\n", n))
+				b.WriteString(pads[r])
+				b.WriteString(tail.src)
+				out = append(out, c12Prog{Gen: "special", Shape: "operand-boundary-" + tail.name, Leaf: itoa(T - 0xFFFF), Src: b.String(), Run: true})
+			}
+		}
+	}
 	// many lines between instructions (lnotab line increment > 255) and long lines of code (> 255 bytes)
 	{
 		out = append(out, c12Prog{Gen: "special", Shape: "lnotab", Leaf: "line-gap", Src: "x = 1\n" + strings.Repeat("\n", 600) + "x = 2\n" + strings.Repeat("#\n", 300) + "x = 3\n", Run: true})
